@@ -1,6 +1,7 @@
 import Driver.Core
 import IGVerif.Model.Tab
 import IGVerif.Model.TabPrint
+import IGVerif.Spec.PrivateLink
 namespace Drv
 open Lean IGVerif
 
@@ -20,7 +21,7 @@ def effId (stmtId : String) : Str := Tab.escape (TabPrint.cleanInput '|' stmtId.
 def tabCase (id tag : String) (s : Stmt) (stmtId : String) (o : Tab.Opts) : Case :=
   let text := String.ofList (renderS s)
   { id := id, op := "tab", args := tabArgs text stmtId o,
-    exp := rowsToJson (Tab.exportAll o (denoteTop s) (effId stmtId)), tag := tag }
+    exp := rowsToJson (Tab.exportAll o (denoteLinked s) (effId stmtId)), tag := tag }
 
 /-- normalise a row object: drop empty cells, sort keys -/
 def normRow (j : Json) : List (String × String) :=
